@@ -8,7 +8,7 @@ from vf.core import Part, Violation, call
 from vf.props import common
 
 PROPERTY = "C07"
-RULE = ("Hypothesis generates validated model DAG specs x assumption dictionaries D over any subset of leaf ids (int / (v,v) / "
+RULE = ("Also: a leaf named in the assumption that is still part of the assumed model must carry exactly the given bounds (assume() docstring); sub-ranges are biased to the default ranges (0,1) and 16-bit. Hypothesis generates validated model DAG specs x assumption dictionaries D over any subset of leaf ids (int / (v,v) / "
         "sub-range tuple / Bounds) and sub-proposition ids (0/1 as int, tuple or Bounds) x interpretations I of the remaining "
         "leaves (total; sometimes partial). Oracles, all on freshly built objects: (a) metamorphic: "
         "build().assume(D).evaluate(I) == build().evaluate(D u I) as bounds; (b) when D u I is total and constant both equal the "
